@@ -384,8 +384,11 @@ impl<'a> WInterp<'a> {
             } else if rm < room.min(1 << 40) {
                 bad.push(("C11", "remaining_mut-too-small", format!("remaining_mut()={} model room {}", rm, room)));
             }
-            if root.has_remaining_mut() != (rm > 0) {
-                bad.push(("C11", "has_remaining_mut", format!("has_remaining_mut()={} remaining_mut()={}", root.has_remaining_mut(), rm)));
+            // (called on the node type itself: `root.has_remaining_mut()` on a `&mut NodeMut` resolves to the crate's `&mut T` impl,
+            // which does not forward this method, and would only ever test the trait's default)
+            let hrm = <NodeMut as BufMut>::has_remaining_mut(root);
+            if hrm != (rm > 0) {
+                bad.push(("C11", "has_remaining_mut", format!("has_remaining_mut()={} remaining_mut()={}", hrm, rm)));
             }
             if probe_chunk {
                 let cl = catch_unwind(AssertUnwindSafe(|| root.chunk_mut().len()));
@@ -903,6 +906,13 @@ impl<'a> WInterp<'a> {
 }
 
 fn walk_w(n: &NodeMut, m: &WM, arena: &WArena, bad: &mut Bad, path: &mut String) {
+    // every node, not only the root: the two `&self` queries of the concrete type must agree with each other (an outer adapter only
+    // reaches them through `Box<T>`, which forwards remaining_mut() but not has_remaining_mut())
+    if let Ok((hrm, rm)) = catch_unwind(AssertUnwindSafe(|| (<NodeMut as BufMut>::has_remaining_mut(n), <NodeMut as BufMut>::remaining_mut(n)))) {
+        if hrm != (rm > 0) {
+            bad.push(("C11", "has_remaining_mut", format!("at {}: has_remaining_mut()={} remaining_mut()={}", path, hrm, rm)));
+        }
+    }
     match (n, m) {
         (NodeMut::Limit(l), WM::Limit(mi, ml)) => {
             if l.limit() != *ml {
